@@ -256,12 +256,14 @@ def promised(s, rows_in):
     if k == "T":
         return promised(s["s"], rows_in)
     if k == "*":
-        return promised(s["a"], promised(s["b"], rows_in))
+        rb = promised(s["b"], rows_in)
+        return None if rb is None else promised(s["a"], rb)
     if k == "+":
-        return promised(s["a"], rows_in) + promised(s["b"], rows_in)
+        ra, rb = promised(s["a"], rows_in), promised(s["b"], rows_in)
+        return None if ra is None or rb is None else ra + rb
     if k == "&":
         ra, rb = promised(s["a"], rows_in), promised(s["b"], rows_in)
-        if len(ra) != len(rb):
+        if ra is None or rb is None or len(ra) != len(rb):
             return None
         nb = len(svars(s["b"]))
         na = len(svars(s["a"]))
@@ -524,7 +526,7 @@ def oracles(case, res):
 # ------------------------------------------------------------------------------------------
 # generator
 
-SAMPLED = ["x", "u", "s", "w", "z"]
+SAMPLED = ["x", "u", "s", "w", "z", "y", "v", "q"]
 
 
 class Gen:
@@ -602,11 +604,11 @@ class Gen:
     def smp(self, depth, vpool, avail):
         rng = self.rng
         c = rng.random()
-        if depth == 0 or c < 0.45 or len(vpool) < 2:
+        if depth == 0 or c < 0.30 or len(vpool) < 2:
             if rng.random() < 0.12 and vpool:
                 return dict(k="data", v=vpool.pop(0), id=self.new_id(), m=rng.choice([1, 2, 3, 5]))
             return self.leaf(vpool, avail)
-        if c < 0.70:
+        if c < 0.62:
             b = self.smp(depth - 1, vpool, avail)
             av = dict(avail)
             for lf in leaves_of(b):
@@ -615,7 +617,7 @@ class Gen:
                     av[lf["d"]["v"]] = True
             a = self.smp(depth - 1, vpool, av)
             return dict(k="*", a=a, b=b)
-        if c < 0.82:
+        if c < 0.78:
             a = self.leaf(vpool, avail)
             b = json.loads(json.dumps(a))
             b["kind"] = rng.choice(["u", "g"]) if a["kind"] not in ("n", "e") else a["kind"]
@@ -701,7 +703,10 @@ def gen_case(rng, idx):
     avail = {w: True for w in pvars}
     vpool = list(SAMPLED)
     rng.shuffle(vpool)
-    s = g.smp(rng.choice([0, 1, 1, 2, 2, 3]), vpool, avail)
+    try:
+        s = g.smp(rng.choice([0, 1, 1, 2, 2, 2, 3, 3]), vpool, avail)
+    except IndexError:      # the expression needs more variable names than the pool has: draw another one
+        return None
     for d in all_doms(s):
         fix_bool_ids(d)
     pvals = []
@@ -718,11 +723,11 @@ def total_rows(case):
 def gen_cases(ctx):
     rng = ctx.rng
     cases, i = [], 0
-    want = ctx.scale(420, 4500)
+    want = ctx.scale(1400, 14000)
     while len(cases) < want:
         i += 1
         c = gen_case(rng, i)
-        if total_rows(c) > 400:
+        if c is None or total_rows(c) > 400:
             continue
         cases.append(c)
     return cases
